@@ -22,8 +22,8 @@ P = {
     "C03": ("proof", "Theorems, for every token sequence and payload type: for every validated file with productive nonterminals for which the generator stages succeed, an error stop of the emitted loop over the emitted tables satisfies the three clauses below (C03_every_grammar, via the generator theorem plus: every state's cores are generated from its kernel, every transition target has a kernel item); for every grammar and automaton accepted by the three proved-sound executable validators validB (Sound ∧ Complete), tightB (every item in the closure of its state's kernel, no empty target state) and productiveB, an error stop of the emitted loop has consumed a prefix of some sentence, its lookahead token is the first token that makes the prefix dead, and Err(None) only happens on a proper prefix of a sentence (C03_first_offending); the error is never early for any Complete automaton (C03_not_early); the run up to the error is independent of everything after the lookahead (C03_lookahead_only = nothing beyond the reported token is used); C03_viable. The validators run on the implementation's own machine and table for every generated grammar, and in the kernel on parser.rs (C03_front_end, C03_front_end_first_offending). "
             "Partial: for grammars with unproductive nonterminals the reference is a canonical LR(1) driver (oracle, no theorem); the actual number of iterator pulls of the compiled parser is observed with a counting iterator.",
             "§6.1(3), §7 C03", "first-offending-token theorem over validated automata + compiled-parser correspondence with counting iterator"),
-    "C04": ("proof", "Theorems: for every validated file, whenever validated_ast_to_machine returns a machine m, machine_to_table either returns a table and m has no pair of items demanding different actions on one lookahead column, or reports a conflict that is such a pair — there is no third outcome (no panic), so a parser is emitted iff the generated automaton is conflict-free (C04_emitted_iff_conflict_free, from the generator invariants MachineOK + Proofs/NoPanic); for any automaton: C04_ok_conflict_free, C04_conflict_genuine, C04_setAction_*. The generated automaton is proved to be a valid LR automaton with one state per core (generator theorem, C01). "
-            "Partial: exactness of its lookahead sets ('it is *the* LALR(1) automaton', §6.3) is not a theorem; the verdict is compared on every generated grammar with conflict-freeness of a specification-side canonical-LR(1)-merged-by-core construction (a different algorithm) and with the model.",
+    "C04": ("proof", "Theorems: for every validated file, whenever validated_ast_to_machine returns a machine m, machine_to_table either returns a table and m has no pair of items demanding different actions on one lookahead column, or reports a conflict that is such a pair — there is no third outcome (no panic), so a parser is emitted iff the generated automaton is conflict-free (C04_emitted_iff_conflict_free, from the generator invariants MachineOK + Proofs/NoPanic); for any automaton: C04_ok_conflict_free, C04_conflict_genuine, C04_setAction_*. The generated automaton is proved to be *the* LALR(1) automaton of the grammar — the canonical LR(1) collection merged by core (C17_is_lalr1) — w.r.t. a FIRST map proved closed and sound. "
+            "Residue: termination (fuel); independently the verdict is compared on every generated grammar with conflict-freeness of a specification-side canonical-LR(1)-merged-by-core construction (a different algorithm) and with the model.",
             "§6.2, §6.3, §7 C04", "emitted-iff-conflict-free theorem on the generated automaton + verdict vs spec-side LALR(1) oracle"),
     "C05": ("proof", "A theorem cannot say 'rustc accepts'. Proved: every internal name chosen by create_unique_identifier is fresh w.r.t. all names in use and is recorded (C05_fresh). "
             "The emitted text is byte-equal to the model's rendering; rustc type-checks the emitted module for adversarial namings (generator-internal names, S, Eof, numeric-suffix neighbours, letterless names) with derive-less payload types. Known finding: zero-variant terminal enum.",
@@ -44,7 +44,8 @@ P = {
             "Tie to the code: the model's answer is compared with the implementation's on files with 0–3 injected violations of 28 kinds (incl. cross-namespace names), and Truthful/WellFormed are also evaluated by an independent Python oracle on the implementation's answers.",
             "§7 C10", "Ok⇔WellFormed + Err⇒Truthful theorems; model=impl on injected violations"),
     "C11": ("proof", "Theorems: a conflict report names a state of the automaton, two items of that state, and they demand different parser actions on the same lookahead column (C11_payload; every grammar, every automaton); for every validated file the attached automaton — the machine validated_ast_to_machine built, conflicts or not — has exactly the item sets (lookaheads included) generated by the LALR(1) propagation rules over its transition graph w.r.t. a closed and sound FIRST map, one state per core, functional transitions (C11_attached_automaton, from the generator invariants). "
-            "Partial: equivalence of that characterisation with the canonical-LR(1)-merged-by-core definition, and 'attached file = validated input', are checked on every conflicting grammar of the run against the independent LALR(1) construction and the model.",
+            It is the canonical LR(1) collection merged by core (C17_is_lalr1). "
+            "Partial: 'attached file = validated input' and, independently, the isomorphism with a separately written LALR(1) construction are checked on every conflicting grammar of the run against the independent LALR(1) construction and the model.",
             "§6.2, §7 C11", "conflict-payload theorem + exact attached automaton + LALR(1) isomorphism oracle"),
     "C12": ("proof", "Theorems: the attribute token is exactly the source slice the scanner specification delimits with a bracket stack (via C08_tokenize_eq_spec); every emitted type item carries exactly its declaration's attribute texts, in order (C12_emit); render prints them one per line directly before the item. "
             "Partial: order preservation through cst_to_ast is compared, not proved; verbatim occurrence is checked on the emitted text for attributes with non-ASCII text and nested brackets.",
@@ -62,8 +63,9 @@ P = {
             "Partial: comment skipping as a separate lemma and the downstream relabelling lemma are not theorems; every base file is compared with random re-layouts (all 25 White_Space characters, CR/LF, comments) modulo digest and position→token-index map.",
             "§7 C16", "scanner theorems + re-layout differential"),
     "C17": ("proof", "Theorems, for every validated file for which the generator stages succeed: the item sets of the generated automaton, lookaheads included, are exactly the least fixed point of the LALR(1) propagation rules over its transition graph — augmented initial item with end of input; [B → ·γ, b] for every b ∈ FIRST(β a) in the state of [A → α·Bβ, a]; the dot moved along transitions, contributions of all predecessor states united (C17_items_exact); no two states have the same core and transitions are functional (C17_one_state_per_core); an ACTION cell is non-error iff an item of its state demands it there (reduce exactly on the item's lookaheads, accept on end of input, shift to the transition target), GOTO cells are exactly the nonterminal transitions, Err/None elsewhere (C17_cells, C17_empty_table). The FIRST map used by the rules is proved closed under the FIRST equations (complete) and sound (every terminal in FIRST(B) begins a sentential form derived from B; nullable marks are true). "
-            "Partial: the equivalence of the propagation-rule characterisation with the canonical-LR(1)-merged-by-core definition is not a theorem; tables read back from the emitted text are compared, modulo the renumbering from the start state, with the tables of an independent specification-side LALR(1) construction on every accepted grammar.",
-            "§6.2, §6.3, §7 C17", "exact item sets and cells for every grammar + LALR(1) table oracle on emitted text"),
+            That is the textbook definition: the generated automaton is the canonical LR(1) collection merged by core — every canonical state lies inside exactly one machine state with the same cores, every item of a machine state (lookahead included) lies in a canonical state with that core, every machine state merges at least one canonical state (C17_is_lalr1, Proofs/Canonical). "
+            "Residue: termination (fuel) and the name↔rank coding; independently, tables read back from the emitted text are compared, modulo the renumbering from the start state, with the tables of an independent specification-side LALR(1) construction on every accepted grammar.",
+            "§6.2, §6.3, §7 C17", "generated automaton = canonical LR(1) merged by core, exact cells, for every grammar + LALR(1) table oracle on emitted text"),
     "C18": ("proof", "Full: for every history of new/from_iter/insert/extend over any type with a lawful total order: strictly ascending vector, membership = the mathematical set, contains decides membership, iteration yields each element once ascending, equal element sets ⇒ equal vectors (C18_sorted, _refines, _contains, _iter, _ext). "
             "std sort/dedup/binary_search are modelled by contract; kiki::Oset is compared with BTreeSet and with the model on random histories over u32, (u8,u8), String.",
             "§7 C18", "invariant + refinement + extensionality theorems"),
